@@ -350,7 +350,12 @@ def build(recipe) -> Built:
             if not ref.is_unitary:
                 b.skipped.append("inv:not_unitary")
                 continue
-            new = cirq.inverse(op, None)
+            try:
+                new = cirq.inverse(op, None)
+            except ValueError as e:
+                if "not invertible" not in str(e):
+                    raise
+                new = None  # documented by CircuitOperation: negative repetitions of a non-invertible circuit
             if new is None:
                 b.skipped.append("inv:none")
                 continue
@@ -375,6 +380,11 @@ def build(recipe) -> Built:
                 continue
             try:
                 new = cirq.pow(op, t, None)
+            except ValueError as e:
+                if "not invertible" not in str(e):
+                    raise
+                b.skipped.append("pow:not_invertible")
+                continue
             except TypeError:
                 # documented: CircuitOperation.repeat raises TypeError for non-integer repetitions; python raises
                 # TypeError when a TaggedOperation's sub-operation answers NotImplemented
